@@ -9,6 +9,7 @@ import DimodProofs.VarsKeysRelabel
 import DimodProofs.VarsObj
 import DimodProofs.VarsObjMixin
 import DimodModel.VarsAlphabet
+import DimodProofs.LabelF
 
 /-! # C13 — Variables is an order-preserving bijection between labels and indices
 
@@ -676,7 +677,102 @@ theorem alphabet_covers_source :
     Generated.VarsMethods.bases = ["cyVariables", "abc.Set[Variable]", "abc.Sequence[Variable]"] := by
   refine ⟨by decide +kernel, by decide +kernel, by decide +kernel⟩
 
+/-! ## round 8: labels with a non-integral number (`LabelF`: `1.5`, `np.float32(0.5)`, `Fraction(3, 2)`, tuples of them)
+
+The shared `Label` type is unchanged; `LabelF` wraps it (`LabelF.ofLabel`) and adds `frac`.  The class over `LabelF` is the
+existing model run on the injective, `int`-preserving encoding `LabelF.enc` (the driver receives encoded labels). -/
+
+/-- the encoding is injective: two `LabelF` labels are one model label exactly when they are equal -/
+theorem labelF_enc_injective (a b : LabelF) : a.enc = b.enc ↔ a = b := LabelF.enc_eq_iff a b
+
+/-- the integers of the model side are exactly the integer labels: the `PyLong` / range fast paths of `count` see no other
+    label, in particular no non-integral number -/
+theorem labelF_int_preserved (a : LabelF) (z : Int) : a.enc = .int z ↔ a = .int z := LabelF.enc_eq_int_iff a z
+
+/-- `Label` embeds in `LabelF`, and a label containing a non-integral number is none of the embedded ones (it aliases
+    nothing of the old alphabet) and is no integer of the model side -/
+theorem labelF_embedding :
+    (∀ a b : Label, LabelF.ofLabel a = LabelF.ofLabel b ↔ a = b) ∧
+    (∀ (a : LabelF), a.hasFrac = true → (∀ l : Label, a ≠ LabelF.ofLabel l) ∧ ∀ z : Int, a.enc ≠ .int z) := by
+  refine ⟨fun a b => ⟨LabelF.ofLabel_inj a b, fun h => by rw [h]⟩, fun a h => ⟨LabelF.frac_ne_ofLabel a h, fun z e => ?_⟩⟩
+  rw [LabelF.enc_eq_int_iff] at e
+  rw [e] at h; cases h
+
+/-- **every history of the mutators over `LabelF`** (explicit / auto appends, pops, clears, relabels with a dict literal,
+    relabel-as-integers, removals; from the empty object): the state keeps the invariant and is the encoding of a
+    DUPLICATE-FREE `LabelF` list of length `_stop`, which is the list specification run on the history; `count` /
+    membership and `index` of ANY `LabelF` label (non-integral numbers included) are membership and position in that
+    list -/
+theorem labelF_history_bijection (ops : List OpF) (hwf : ∀ op ∈ ops, op.WF) :
+    ∃ lF : List LabelF,
+      lF.map LabelF.enc = (VState.runF ops).abs ∧ lF.map LabelF.enc = LSpec.runF ops ∧ (VState.runF ops).Inv ∧
+      lF.Nodup ∧ lF.length = (VState.runF ops).stop ∧
+      (∀ v : LabelF, (VState.runF ops).count v.enc = true ↔ v ∈ lF) ∧
+      (∀ (v : LabelF) (i : Nat), (VState.runF ops).index? v.enc = some i ↔ lF[i]? = some v) := by
+  obtain ⟨hinv, hspec, himg⟩ := VState.runF_spec ops hwf
+  obtain ⟨lF, hlF⟩ := LabelF.exists_preimage _ himg
+  refine ⟨lF, hlF, by rw [hlF, hspec], hinv, ?_, ?_, ?_, ?_⟩
+  · have hn := VState.abs_nodup _ hinv
+    rw [← hlF, List.Nodup, List.pairwise_map] at hn
+    exact List.Pairwise.imp (fun hne he => hne (by rw [he])) hn
+  · have := VState.abs_length (VState.runF ops)
+    rw [← hlF, List.length_map] at this; exact this
+  · intro v
+    rw [VState.count_iff _ hinv, ← hlF]; exact LabelF.mem_map_enc lF v
+  · intro v i
+    rw [VState.index?_eq_some_iff _ hinv, ← hlF, List.getElem?_map]
+    cases lF[i]? with
+    | none => simp
+    | some w => simp [LabelF.enc_eq_iff]
+
+/-- a concrete history with non-integral numbers: `1.5`, an auto label, `(0.5, "a")`, the integer `1`, then `1.5` is removed
+    and `(0.5, "a")` relabelled to `2.5`: three labels, the non-integral ones at positions 1 and absent -/
+def wOpsF : List OpF := [.append (some (.frac 3 2)) false, .append none false, .append (some (.tup [.frac 1 2, .str "a"])) false,
+  .append (some (.int 1)) true, .remove (.frac 3 2), .relabel [(.tup [.frac 1 2, .str "a"], .frac 5 2)]]
+
+example : (∀ op ∈ wOpsF, op.WF) := by
+  intro op h
+  simp only [wOpsF, List.mem_cons, List.not_mem_nil, or_false] at h
+  rcases h with rfl | rfl | rfl | rfl | rfl | rfl <;> simp [OpF.WF]
+
+example : (VState.runF wOpsF).abs = [LabelF.enc (.int 1), LabelF.enc (.frac 5 2)] ∧
+    (VState.runF wOpsF).index? (LabelF.enc (.frac 5 2)) = some 1 ∧ (VState.runF wOpsF).count (LabelF.enc (.frac 3 2)) = false ∧
+    VState.flagsF wOpsF = [true, true, true, true, true, true] := by
+  decide +kernel
+
+/-- **every history over the WHOLE alphabet with `LabelF` arguments** (the seven mutators + `_extend` from any iterable with
+    explicit / auto labels, `copy`, the pickle round trip, slicing `v[a:b:c]`; from the empty object): same statement -/
+theorem labelF_history2_bijection (ops : List OpF2) (hwf : ∀ op ∈ ops, op.WF) :
+    ∃ lF : List LabelF,
+      lF.map LabelF.enc = (VState.runF2 ops).abs ∧ lF.map LabelF.enc = LSpec.runF2 ops ∧ (VState.runF2 ops).Inv ∧
+      lF.Nodup ∧ lF.length = (VState.runF2 ops).stop ∧
+      (∀ v : LabelF, (VState.runF2 ops).count v.enc = true ↔ v ∈ lF) ∧
+      (∀ (v : LabelF) (i : Nat), (VState.runF2 ops).index? v.enc = some i ↔ lF[i]? = some v) := by
+  obtain ⟨hinv, hspec, himg⟩ := VState.runF2_spec ops hwf
+  obtain ⟨lF, h1, h2, h3, h4, h5⟩ := VState.labelF_view _ hinv himg
+  exact ⟨lF, h1, by rw [h1, hspec], hinv, h2, h3, h4, h5⟩
+
+def wOpsF2 : List OpF2 := [.extend [some (.frac 3 2), none, some (.int 1), some (.tup [.frac 1 2])] true, .pickle,
+  .slice ⟨none, none, some (-1)⟩, .base (.remove (.int 1)), .copy]
+
+example : (∀ op ∈ wOpsF2, op.WF) := by
+  intro op h
+  simp only [wOpsF2, List.mem_cons, List.not_mem_nil, or_false] at h
+  rcases h with rfl | rfl | rfl | rfl | rfl <;> simp [OpF2.WF, OpF.WF]
+
+example : (VState.runF2 wOpsF2).abs = [LabelF.enc (.tup [.frac 1 2]), LabelF.enc (.frac 3 2)] ∧
+    (VState.runF2 wOpsF2).index? (LabelF.enc (.frac 3 2)) = some 1 := by
+  decide +kernel
+
 end C13
+
+section AxiomsR8
+#print axioms C13.labelF_enc_injective
+#print axioms C13.labelF_int_preserved
+#print axioms C13.labelF_embedding
+#print axioms C13.labelF_history_bijection
+#print axioms C13.labelF_history2_bijection
+end AxiomsR8
 
 section AxiomsR7
 #print axioms C13.object_set_reflected
